@@ -149,6 +149,34 @@ func runC13(c *Ctx) {
 		c.Undecided("era-dispatch", "PoWTarget", "", "(State).PoWTarget does not resolve")
 	}
 	c13Dispatch(c, ge)
+	c13NoDivByZero(c, ge)
+}
+
+// c13NoDivByZero: "applying headers never fails": no integer division reachable from ApplyHeader can divide
+// by zero (constant divisor, a dominating non-zero test, or max(x, K>=1)). Floating-point and math/big division
+// do not panic and are not sinks.
+func c13NoDivByZero(c *Ctx, ge *GuardEngine) {
+	fn := c.P.Func("consensus.ApplyHeader")
+	if fn == nil {
+		c.Undecided("apply-total", "anchor", "", "consensus.ApplyHeader does not resolve")
+		return
+	}
+	n := 0
+	seen := map[string]bool{}
+	for _, s := range ge.Sinks(fn, nil, nil, nil, 0, map[*ssa.Function]int{}) {
+		if s.Kind != "div" {
+			continue
+		}
+		k := sinkKey(s)
+		if seen[k] {
+			continue
+		}
+		seen[k] = true
+		n++
+		ok, why := s.Discharged()
+		c.Check(ok, "apply-total", "div:"+k, c.P.Pos(s.Pos), ifElse(ok, "integer division cannot divide by zero: "+why, "integer division by "+short(s.Operand)+" is reachable from ApplyHeader with nothing establishing a non-zero divisor (reached via "+strings.Join(s.Chain, " > ")+"): a header sequence that validation accepts makes applying it panic"))
+	}
+	c.Check(n >= 4, "apply-total", "inventory", "", fmt.Sprintf("%d integer divisions reachable from ApplyHeader examined", n))
 }
 
 // allocEscapes: the local's value is returned, stored elsewhere or passed by address.
